@@ -149,6 +149,12 @@ def gen_program(rnd, kind):
             [0x21, rnd.randrange(256), rnd.randrange(256)],
             [0x31, rnd.randrange(256), rnd.choice((0x40, 0x80, 0xFF, 0x3F))],
             [0x18, 0x00], [0x00], [0x3C], [0x27], [0xE3], [0xDD, 0xE3], [0xD9], [0x08],
+            # 16-bit stores whose second byte falls on ROM (0xFFFF -> 0x0000, 0x3FFF -> 0x4000) and a read-back of the ROM
+            # cell into RAM: a ROM that took the byte would show (and would not survive a snapshot)
+            [0xED, 0x73, 0xFF, 0xFF, 0x3A, 0x00, 0x00, 0x32, 0x10, 0x91],      # LD (0xFFFF),SP ; LD A,(0) ; LD (0x9110),A
+            [0x22, 0xFF, 0xFF, 0x3A, 0x00, 0x00, 0x32, 0x11, 0x91],            # LD (0xFFFF),HL ; ...
+            [0xED, 0x43, 0xFE, 0x3F, 0x2A, 0xFE, 0x3F, 0x22, 0x12, 0x91],      # LD (0x3FFE),BC ; LD HL,(0x3FFE) ; LD (0x9112),HL
+            [0xDD, 0x22, 0xFF, 0x3F, 0x3A, 0xFF, 0x3F, 0x32, 0x14, 0x91],      # LD (0x3FFF),IX ; LD A,(0x3FFF) ; LD (0x9114),A
         ]
         while len(code) < n:
             code += rnd.choice(frag)
